@@ -29,6 +29,12 @@ def cfgs():
     add("T12-ticket-full", srv_rsa, cli_rsa, "ver=T12", "ver=T12 suites=0xc02f sid=F tick=1")
     # the client asks for a ticket (empty SessionTicket extension), the server has no ticket keys and does not answer the extension
     add("T12-ticket-asked-nokeys", srv_rsa_nt, cli_rsa, "ver=T12", "ver=T12 suites=0xc02f sid=F tick=1")
+    # the client's handle holds a ticket AND a session id (servers that issue both exist); this server takes neither: it answers with
+    # another session id, which tells the client that the ticket was not taken either
+    C.append(dict(name="T12-ticket+id-declined", ks=srv_rsa + "\nkeys kn id=%s ca=%s psk=1" % (RSA[0], RSA[1]), kc=cli_rsa, so="ver=T12", co="ver=T12 suites=0xc02f sid=R tick=1", resume=False, fam="L", early=False,
+                  prelude=["new s8 server keys=kn ver=T12", "new c8 client keys=kc ver=T12 suites=0xc02f sid=A", "link c8 s8", "pump c8 s8 max=40", "close c8", "pump c8 s8 max=6", "del c8", "del s8",
+                           "new s9 server keys=ks ver=T12", "new c9 client keys=kc ver=T12 suites=0xc02f sid=R tick=1", "link c9 s9", "pump c9 s9 max=40", "close c9", "pump c9 s9 max=6", "del c9", "del s9",
+                           "sidedit R idfrom=A"], srvkeys="kn"))
     add("T12-cauth", srv_rsa, cli_rsa_id, "ver=T12 cb=strict", "ver=T12 suites=0xc02f")
     add("T13-full", srv_rsa, cli_rsa, "ver=T13", "ver=T13", fam="T13")
     add("T13-full-ec-chacha", srv_ec, cli_ec, "ver=T13", "ver=T13 suites=0x1303", fam="T13")
@@ -121,7 +127,8 @@ def episode_lines(cfg, k, target, act, cont, eid, dtls=False):
         # an honest first connection to obtain the session / ticket / PSK
         L += ["new s9 server keys=ks %s" % cfg["so"], "new c9 client keys=kc %s" % cfg["co"], "link c9 s9",
               "pump c9 s9 max=40", "send c9 3", "pump c9 s9 max=5", "close c9", "pump c9 s9 max=5", "del c9", "del s9"]
-    L += ["new s0 server keys=ks %s" % cfg["so"], "new c0 client keys=kc %s" % cfg["co"], "link c0 s0"]
+    L += cfg.get("prelude", [])
+    L += ["new s0 server keys=%s %s" % (cfg.get("srvkeys", "ks"), cfg["so"]), "new c0 client keys=kc %s" % cfg["co"], "link c0 s0"]
     if cfg.get("early"):
         L += ["send c0 12", "send c0 30"]       # TLS 1.3 early data right behind the ClientHello
     if k > 0:
